@@ -25,11 +25,11 @@ type bkFile struct {
 }
 
 type backup struct {
-	dir   string
-	files []bkFile
-	want  []Entry
-	db    *DB // the source database (its config is reused for fresh instances)
-	delta bool
+	dir        string
+	files      []bkFile
+	want       []Entry
+	db         *DB // the source database (its config is reused for fresh instances)
+	delta      bool
 	deltaItems int
 }
 
